@@ -1,6 +1,7 @@
-(* C08 — CHECKPREDICATE (0xc0): stacks and error class refine the reference semantics.
-   (Its gas contains the child VM's own consumption, which the reference cost table does
-   not describe; gas accounting across CHECKPREDICATE is the subject of C07.) *)
+(* C08 — CHECKPREDICATE (0xc0) refines the reference semantics, gas included: the charge is
+   64 + the child's consumption (limit handed over − run limit and stack memory that come
+   back + memory of the arguments) + the usual change of stack memory.  The child VM is an
+   arbitrary function [rc] that keeps a non-negative run limit non-negative. *)
 From Coq Require Import List ZArith NArith Bool Lia ZifyN ZifyNat ZifyBool.
 From Verif Require Import Cmp VM.
 From C08 Require Import Spec Base.
@@ -27,7 +28,8 @@ Ltac pred_fix Hrc :=
   repeat match goal with
   | E : ?rc ?st = (?b, ?v) |- _ =>
       is_var v; let Hv := fresh "Hv" in
-      pose proof (Hrc st) as Hv; rewrite E in Hv; destruct v; cbn [snd runlimit] in Hv
+      assert (Hv : 0 <= runlimit (snd (rc st))) by (apply Hrc; cbn [runlimit]; lia);
+      rewrite E in Hv; destruct v; cbn [snd runlimit] in Hv
   end;
   repeat rewrite mem_eq;
   repeat match goal with
@@ -50,28 +52,69 @@ Ltac pred_fix Hrc :=
       lazymatch goal with | _ : 0 <= mem x |- _ => fail | _ => pose proof (mem_nonneg x) end
   end.
 
+Definition child_nonneg (rc : vmst -> child_result) : Prop :=
+  forall c, 0 <= runlimit c -> 0 <= runlimit (snd (rc c)).
+
+Lemma cp_limit_val gas lb r n : decode lb = inr n -> (n <? lim63)%N = true ->
+  cp_limit gas (lb :: r) = if (n =? 0)%N then gas - 256 else Z.of_N n.
+Proof.
+  intros D E. unfold cp_limit, top0. cbn [nth]. rewrite (size_operand_val _ _ D E), ZofN_eqb0. reflexivity.
+Qed.
+
+Lemma cp_args_val lb p nb d3 m : decode nb = inr m -> (m <? lim63)%N = true ->
+  cp_args (lb :: p :: nb :: d3) = firstn (N.to_nat (if (m =? 0)%N then N.of_nat (length d3) else m)) d3.
+Proof.
+  intros D E. unfold cp_args. cbn [skipn nth]. rewrite (size_operand_val _ _ D E), ZofN_eqb0.
+  destruct (m =? 0)%N; f_equal; lia.
+Qed.
+
+Lemma mem_split' k d : mem d = mem (firstn k d) + mem (skipn k d).
+Proof.
+  rewrite <- (firstn_skipn k d) at 1. induction (firstn k d) as [|x a IH]; cbn [app mem]; lia.
+Qed.
+
 Section Predicate.
   Variable cr : crypto.
   Variable cx : context.
   Variable rc : vmst -> child_result.
 
-  Lemma checkpredicate_stacks : forall i s, i_op i = 192%N ->
-    (forall c, 0 <= runlimit (snd (rc c))) ->
-    256 + size_operand (top0 (dstack s)) <= runlimit s ->
-    stacks_of (outcome (exec_instr cr cx rc i s)) = stacks_of (spec_instr cr cx rc i s).
+  Lemma checkpredicate_ok : forall i s, i_op i = 192%N -> child_nonneg rc -> refines_at cr cx rc i s.
   Proof.
     intros [op il idata] [pg pc0 npc rl df er vd ds als] Hop Hrc. cbn [i_op] in Hop. subst op. facts.
-    unfold stacks_of. spec_unfold. vm_unfold. cbv beta iota delta [child_of]. change bool_bytes with bool_item.
+    spec_unfold. vm_unfold. cbv beta iota delta [child_of]. change bool_bytes with bool_item.
     cbn [nth tl].
     repeat first [ match goal with
                    | |- context [if (?v =? 0)%N then _ else _] =>
                        is_var v; let E := fresh "E" in destruct (v =? 0)%N eqn:E; cbv beta iota
                    end
                  | spec_step ].
-    all: intros Hgas; cbn [nth tl] in Hgas; size_facts; op_run_with ltac:(pred_fix Hrc).
+    all: intros Hgas.
+    all: match type of Hgas with
+         | context [Z.max 0 ?l] =>
+             assert (Hg : 256 + Z.max 0 l <= rl) by lia; clear Hgas;
+             try (erewrite cp_limit_val in Hg by eassumption)
+         end.
+    all: repeat match goal with
+         | E : (?v =? 0)%N = _, Hg : context [(?v =? 0)%N] |- _ => rewrite E in Hg
+         end.
+    all: op_run_with ltac:(pred_fix Hrc).
     all: try reflexivity.
     all: try (exfalso; arith).
-    all: cbn [VM.dstack]; match goal with |- context [match ?d with [] => true | _ => _ end] => destruct d end;
-      rewrite ?truthy_eq, ?negb_involutive; reflexivity.
+    all: cbv beta iota delta [cp_consumption top1]; cbn [nth];
+      erewrite cp_limit_val, cp_args_val by eassumption;
+      repeat match goal with
+      | E : (?v =? 0)%N = _ |- context [(?v =? 0)%N] => rewrite E
+      end; rewrite ?Nat2N.id;
+      match goal with E : rc _ = _ |- _ => rewrite E end;
+      cbv beta iota; cbn [VM.dstack VM.astack VM.runlimit].
+    all: match goal with |- context [match ?d with [] => true | _ => _ end] => destruct d end;
+      rewrite ?truthy_eq, ?negb_involutive; cbn [negb].
+    all: match goal with |- context [mem (firstn ?k ?d)] => pose proof (mem_split' k d) end.
+    all: unfold two32; cbn [mem]; len_norm; final_parts.
   Qed.
+
+  Corollary checkpredicate_stacks : forall i s, i_op i = 192%N -> child_nonneg rc ->
+    enough_gas cr cx rc i s ->
+    stacks_of (outcome (exec_instr cr cx rc i s)) = stacks_of (spec_instr cr cx rc i s).
+  Proof. intros i s Hop Hrc Hg. rewrite (checkpredicate_ok i s Hop Hrc Hg). reflexivity. Qed.
 End Predicate.
